@@ -41,16 +41,21 @@ func (fv *FuncVerifier) evalCall(st *State, e *ast.CallExpr) []Val {
 	}
 	// interior-pointer aliases passed to a callee (as receiver or argument): the callee may rewrite the
 	// location they name, so that part of the enclosing object is arbitrary afterwards
-	if len(fv.aliases) > 0 {
+	{
 		var escaped []ast.Expr
 		if sel, ok := unparen(e.Fun).(*ast.SelectorExpr); ok {
-			if tgt := fv.aliasTarget(sel.X); tgt != nil {
+			if tgt := fv.aliasTarget(sel.X); len(fv.aliases) > 0 && tgt != nil {
+				escaped = append(escaped, tgt)
+			} else if tgt := fv.implicitFieldAddr(sel); tgt != nil {
+				// p.f.M() with a pointer receiver: M works on &p.f; same copy-in / copy-out treatment
 				escaped = append(escaped, tgt)
 			}
 		}
-		for _, a := range e.Args {
-			if tgt := fv.aliasTarget(a); tgt != nil {
-				escaped = append(escaped, tgt)
+		if len(fv.aliases) > 0 {
+			for _, a := range e.Args {
+				if tgt := fv.aliasTarget(a); tgt != nil {
+					escaped = append(escaped, tgt)
+				}
 			}
 		}
 		if len(escaped) > 0 {
@@ -184,6 +189,56 @@ func unparen(e ast.Expr) ast.Expr {
 		}
 		e = p.X
 	}
+}
+
+// implicitFieldAddr: for a method call x.M() whose method has a pointer receiver while x is an addressable
+// field  p.f  reached through a pointer p, returns the field expression (the receiver is &p.f).
+func (fv *FuncVerifier) implicitFieldAddr(sel *ast.SelectorExpr) ast.Expr {
+	s, ok := fv.info().Selections[sel]
+	if !ok || s.Kind() != types.MethodVal || len(s.Index()) != 1 {
+		return nil
+	}
+	fn, ok := s.Obj().(*types.Func)
+	if !ok {
+		return nil
+	}
+	sig := fn.Type().(*types.Signature)
+	if sig.Recv() == nil {
+		return nil
+	}
+	if _, wantPtr := sig.Recv().Type().Underlying().(*types.Pointer); !wantPtr {
+		return nil
+	}
+	rt := fv.typeOf(sel.X)
+	if rt == nil {
+		return nil
+	}
+	if _, havePtr := rt.Underlying().(*types.Pointer); havePtr {
+		return nil
+	}
+	if _, isIface := rt.Underlying().(*types.Interface); isIface {
+		return nil
+	}
+	fx, ok := unparen(sel.X).(*ast.SelectorExpr)
+	if !ok {
+		return nil
+	}
+	fs, ok := fv.info().Selections[fx]
+	if !ok || fs.Kind() != types.FieldVal || len(fs.Index()) != 1 {
+		return nil
+	}
+	bt := fv.typeOf(fx.X)
+	if bt == nil {
+		return nil
+	}
+	if _, isPtr := bt.Underlying().(*types.Pointer); !isPtr {
+		return nil
+	}
+	// only for callees under contract (others are abstracted anyway)
+	if fv.eng.contracts.ByKey[fn.Pkg().Path()+"."+funcKey(fn)] == nil {
+		return nil
+	}
+	return fx
 }
 
 func (fv *FuncVerifier) adjustRecv(st *State, r Val, s *types.Selection, sel *ast.SelectorExpr) Val {
@@ -886,7 +941,9 @@ func (fv *FuncVerifier) callContract(st *State, e *ast.CallExpr, fn *types.Func,
 			for _, r := range regs {
 				mods = append(mods, modr{r.heap, r.ref, r.lo, r.hi, r.whole})
 				hs[r.heap] = true
-				if t := sc.tkeys[r.heap]; t != nil {
+				if t := sc.tkeys[r.heap]; t != nil && c.Flags["noalloc"] == "" {
+					// values written may refer to objects the callee allocated: those heaps get a new version too
+					// (a callee that allocates nothing -- flag noalloc -- can only store references that existed)
 					fv.reachHeaps(t, seen, hs)
 				}
 				fv.frameWrite(st, r.heap, r.ref, r.lo, r.hi, "call "+text+" modifies "+m.Text, "")
@@ -926,9 +983,12 @@ func (fv *FuncVerifier) callContract(st *State, e *ast.CallExpr, fn *types.Func,
 				}
 			}
 		}
-		na := fv.fresh("alloc", "Int")
-		fv.assume(st, "(>= "+na+" "+st.alloc+")")
-		st.alloc = na
+		na := st.alloc
+		if c.Flags["noalloc"] == "" {
+			na = fv.fresh("alloc", "Int")
+			fv.assume(st, "(>= "+na+" "+st.alloc+")")
+			st.alloc = na
+		}
 		for h := range hs {
 			fv.heapClosure(h, st.heaps[h], na)
 		}
